@@ -99,7 +99,8 @@ def r1_collect_error(ctx):
     # collect_errors forwards each element
     g = eh.method("collect_errors")
     loops = [s for s in function_stmts(g) if isinstance(s, ast.For)]
-    ok = any(any(callee_last(c) == "collect_error" and any(isinstance(a, ast.Name) and a.id == txt(l.target) for a in c.args)
+    ok = any(any(callee_last(c) == "collect_error" and any(isinstance(a, ast.Name) and a.id == txt(l.target)
+                                                              for a in list(c.args) + [k.value for k in c.keywords])
                  for c in calls_in(l)) for l in loops)
     ctx.ob("R1", g, "collect_errors forwards every element to collect_error", ok, "loop calls collect_error(..., schema_error, ...)" if ok else "elements dropped")
 
